@@ -72,7 +72,7 @@ func (o *runObs) safety() (prop, what string) {
 					}
 					below := r.B <= c.Pos[r.A-1]
 					if below && !seen[r] {
-						return "C04", fmt.Sprintf("barrier %d overtook record %v at operator %d: the record is below the reported position %v but was not delivered ahead of the barrier", it.A, r, op, c.Pos)
+						return "C04+C16", fmt.Sprintf("barrier %d overtook record %v at operator %d: the record is below the reported position %v but was not delivered ahead of the barrier", it.A, r, op, c.Pos)
 					}
 					if !below && seen[r] {
 						return "C16", fmt.Sprintf("record %v was delivered to operator %d ahead of barrier %d but is NOT below the reported position %v (a restart from it would deliver it again)", r, op, it.A, c.Pos)
